@@ -179,6 +179,13 @@ class Run:
                     return None
                 rec["got"] = self.vname(e)
                 self.refs[op["ref"]] = [e]
+        elif o == "recreate":
+            try:
+                self.ds.delete_bucket(self.bid)
+                self.bucket = self.ds.create_bucket(self.bid, "t", "c", "h", name="nm", data=copy.deepcopy(self.mdata))
+            except Exception as e:
+                out = type(e).__name__
+            self.ids = {}
         elif o == "mutate":
             objs = self.refs.get(op["ref"])
             if not objs:
